@@ -821,6 +821,157 @@ def f(self, l, n):
     return res
 ''')
 
+
+corpus('''
+def f(l, n):
+    from functools import reduce
+    import operator
+    a = reduce(lambda acc, x: (acc * 31 + x) & 0xffff, l, n & 0xff)
+    b = list(map(lambda x: x ^ 0x55, l))
+    c = reduce(operator.xor, l, 0)
+    d = [operator.add(x, 1) for x in l]
+    return a, b, c, d
+''')
+corpus('''
+def f(l, n):
+    out = []
+    for i in range(len(l) - 1, -1, -1):
+        out.append(l[i])
+    for i in range(0, len(l), 3):
+        out.append(l[i] * 2)
+    for i in reversed(range(0, len(l), 2)):
+        out.append(-l[i])
+    return out
+''')
+corpus('''
+def f(l, n):
+    w = [0] * 8
+    for i in range(8):
+        w[i] = l[i % len(l)] if l else i
+    for i in range(8, 12):
+        w.append((w[i - 8] ^ w[i - 3] ^ i) & 0xff)
+    v = n & 0xffff
+    bits = []
+    for _ in range(5):
+        bits.append(v & 1)
+        v >>= 1
+    return w, bits, v
+''')
+corpus('''
+def f(t, n):
+    d = {}
+    for k, v in t:
+        d.setdefault(k, 0)
+        d[k] = max(d[k], v)
+    x = d.get(n % 4)
+    y = d.get(9, -1)
+    z = x or y
+    return sorted(d.items()), x, y, z, (x if x is not None else 0) + 1
+''')
+corpus('''
+def f(a, b):
+    x = a % 11
+    if x < 3:
+        r = 'low'
+    elif x < 7:
+        r = 'mid' if b % 2 else 'MID'
+    else:
+        r = 'high'
+    k = 0
+    while k < 5 and (x + k) % 4 != 0:
+        k += 1
+    return r, k, '%s:%d' % (r, k), isinstance(x, int) and not isinstance(r, int)
+''')
+corpus('''
+def f(s, n):
+    import struct
+    k = len(s) // 4
+    words = list(struct.unpack('>%dL' % k, s[:4 * k])) if k else []
+    tot = 0
+    for w in words:
+        tot = (tot + w) & 0xffffffff
+    tail = s[4 * k:]
+    v = int.from_bytes(tail, 'big') if tail else 0
+    return struct.pack('>L', tot), v, (tot << 8 | v & 0xff) & 0xffffffff
+''')
+corpus('''
+def f(l, n):
+    pos = 0
+    chunks = []
+    while pos < len(l):
+        size = 1 + (l[pos] & 3)
+        chunks.append(l[pos:pos + size])
+        pos += size
+    flat = []
+    for c in chunks:
+        flat.extend(c)
+    return chunks, flat == l, pos
+''')
+corpus('''
+def f(self, l, n):
+    acc = self.c
+    hist = []
+    for x in l:
+        acc = (acc + x) % 251
+        if acc % 5 == 0:
+            self.w.append(acc)
+            hist.append(len(self.w))
+        elif acc % 7 == 0 and self.w:
+            hist.append(-self.w.pop())
+    self.c = acc
+    return hist
+''')
+corpus('''
+def f(l, l2):
+    res = []
+    i = j = 0
+    while i < len(l) and j < len(l2):
+        if l[i] <= l2[j]:
+            res.append(l[i])
+            i += 1
+        else:
+            res.append(l2[j])
+            j += 1
+    res += l[i:]
+    res += l2[j:]
+    return res, i, j
+''')
+corpus('''
+def f(a, b):
+    m = (1 << (b % 17)) - 1
+    x = a & m
+    y = a % (1 << (b % 17))
+    z = (a >> 3) << 3
+    w = a - a % 8
+    q, r = divmod(a, 1 << (b % 5))
+    return x == y, z == w, q, r, a // 4 * 4 + a % 4, ~a & 0xff, (-a) & 0xff
+''')
+corpus('''
+def f(l, n):
+    it = iter(l)
+    pairs = []
+    for x in it:
+        y = next(it, None)
+        if y is None:
+            pairs.append((x,))
+            break
+        pairs.append((x, y))
+    z = list(zip(l[::2], l[1::2]))
+    return pairs, z
+''')
+corpus('''
+def f(l, n):
+    st = []
+    out = []
+    for x in l:
+        while st and st[-1] < x:
+            out.append(st.pop())
+        st.append(x)
+    while st:
+        out.append(st.pop())
+    return out
+''')
+
 # ---- input generation by parameter name ----------------------------------------------------------------------------------------
 
 
@@ -922,7 +1073,7 @@ import mass_mutants as MM   # noqa: E402  (first-order operators)
 
 def names_loaded(fdef):
     return sorted({n.id for n in ast.walk(fdef) if isinstance(n, ast.Name)} - {'range', 'len', 'list', 'sorted', 'enumerate', 'zip', 'reversed',
-                  'max', 'min', 'sum', 'divmod', 'bool', 'struct', 'set', 'next', 'iter', 'bytes', 'int', 'repr', 'add', 'ValueError', 'IndexError', 'ZeroDivisionError', 'f', 'g'})
+                  'max', 'min', 'sum', 'divmod', 'bool', 'struct', 'set', 'next', 'iter', 'reduce', 'operator', 'map', 'isinstance', 'int', 'zip', 'bytes', 'int', 'repr', 'add', 'ValueError', 'IndexError', 'ZeroDivisionError', 'f', 'g'})
 
 
 def struct_sites(fdef):
